@@ -49,6 +49,40 @@ def late_options(e):
     return "+".join(o) or "none"
 
 
+def _stack(c):
+    """Replies that went through the complete handler stack (dnssvc.NewHandlers with the ECS cache) behind a
+    real plain-DNS server: the layers above the server must not change what the server is told about the
+    client (TraceSizeStack.tla).  The laboratory is C05's."""
+    out, _ = c.go_harness("internal/dnssvc", "^TestVerifC05$", files=["c05_test.go"],
+                          env={"VERIF_NHIST": 150 if c.thorough else 40}, timeout=1200)
+    ev = [e for e in read_ndjson(out) if e.get("ev") == "Query" and e.get("sock")]
+    big = [e for e in ev if e["wire"] > 0 and (e["tc"] or e["wire"] > 1300)]
+    if len(ev) < 100 or len(big) < 10 or not any(e["opt"] == "zero" and e["qopt"] and e["qsize"] < 4096 for e in big):
+        raise Undecided("stack-level size leg vacuous: %d socket queries, %d with a large answer" % (len(ev), len(big)))
+    path = os.path.join(c.scratch, "c08stack.ndjson")
+    write_ndjson(path, [{"qopt": e["qopt"], "qsize": e["qsize"], "cfg": 65535, "wire": e["wire"], "tc": e["tc"], "an": e["an"],
+                         "ropt": e["ropt"], "roptsize": e["roptsize"], "roptver": e["roptver"]} for e in ev])
+    r = c.tlc_trace("TraceSizeStack", "TraceSizeStack.cfg", path, timeout=600)
+    if r.tuples("STUCK"):
+        raise Undecided("stack-level size trace spec stuck")
+    bad = r.tuples("NONCONF")
+    c.cov["traces_validated_against_impl"] += len(ev) - len(bad)
+    for e in ev:
+        c.count_case(("stack", e["opt"], e["qopt"], e["qsize"], e["q"], e["tc"], e["wire"] > 512), nontrivial=e["wire"] > 512 or e["tc"])
+    seen = set()
+    for t in bad:
+        e = ev[int(t[0]) - 1]
+        for clause in re.findall(r'"([A-Za-z_]+)"', t[1]):
+            if (clause, e["opt"]) in seen:
+                continue
+            seen.add((clause, e["opt"]))
+            c.violation({"kind": "stack", "clause": clause, "ecs": e["opt"]},
+                        "C08 %s behind the complete handler stack (plain DNS over UDP, ECS cache): query %s with OPT=%s size=%d "
+                        "client-subnet option %s %s -> %d bytes on the wire, TC=%s, %d answers, reply OPT=%s size=%d version=%d" % (
+                            clause, e["q"], e["qopt"], e["qsize"], e["opt"], e["optsub"], e["wire"], e["tc"], e["an"], e["ropt"],
+                            e["roptsize"], e["roptver"]), e)
+
+
 def run(c: Check):
     th = c.thorough
     c.tlc_mc("Normalize", "Normalize_mc.cfg", coverage=th,
@@ -177,6 +211,7 @@ def run(c: Check):
     for n, sig, desc, replay, where in seen.values():
         c.violation(sig, "%s [%d case(s) of this class in this run, seen on %s]" % (desc, n, ", ".join(sorted(where))),
                     replay)
+    _stack(c)
     c.assumptions += ["miekg/dns Pack/Unpack are trusted to measure and decode the replies",
                       "in-package: the DoQ case mirrors the last three statements of ServerQUIC.handleQUICStream "
                       "(normalizeTCP + packWithPrefix); the real DoQ path is exercised at socket level",
